@@ -1,14 +1,10 @@
+import glob, json, os
 HOOK_COMMITS = []
+try:
+    HOOK_COMMITS = json.load(open(os.path.join(os.path.dirname(__file__), "hook_commits.json")))
+except Exception:
+    pass
 ALL = ["C%02d" % i for i in range(1, 21)]
-CHECKS = [
- {"id": "C04",
-  "text": "Machine-checked theorems over a Gallina model of templ.URL and of the generator's URL-sink dispatch: for every byte string the sanitiser returns the failure URL or returns its input and the WHATWG scheme extraction of that input is absent or allow-listed (C04_url_sound), plus idempotence and dispatch for every letter case. The model is tied to /repo on every run by running the extracted model and the real templ.URL / generator on the same inputs (exhaustive over a 24-symbol adversarial alphabet to length 4/5, vectors, mutations) and by evaluating the extracted specification predicate on the implementation's own output.",
-  "note": "Trusted: Coq kernel + vm_compute; spec/Whatwg.v as the definition of what a browser resolves; extraction (ExtrOcamlBasic only) and ocaml/driver.ml; the Go harness. Assurance = min(theorem over the model, sampled equality model = code). Character references are assumed decoded by the HTML layer (C01).",
-  "technique": "Rocq theorem over hand-written model + extracted-model differential correspondence"},
- {"id": "C17",
-  "text": "The language server's copy of a templ document (proxy.Document via NewDocument/Apply, DocumentContents.Apply, Server.DidOpen/DidChange) equals the editor's text after any history of opens, full replaces and ranged edits with valid ranges, positions beyond line/document end clamped: proved in Coq for all documents, ranges, texts and histories (C17_apply_is_splice, C17_history_tracks_editor, by induction over the change list) against a byte-splice specification written on the flat text; the model and the specification are extracted and compared with the real code on every document <=5 (<=7 thorough) over {a,LF} x every range x 5 texts, all two-change histories on tiny documents, random histories up to 200 edits, and through Server.DidOpen/DidChange with a stub gopls, where the Go text forwarded must be the generation of the editor's text. A regression to the pre-9226857 whole-document predicate is refuted by a kept witness.",
-  "note": "Trusted: Coq 8.16.1 kernel, extraction (ExtrOcamlBasic) + ocaml/driver.ml, the Go harness. Modelled not verified: Document.Lines as list of byte lists; Go slice aliasing/capacity is not modelled (covered by the exhaustive two-change and random history runs); panics are absent in the model (C17_normalize_in_range proves indices in range; the harness captures panics). Assumptions: columns are bytes (UTF-16 units for non-ASCII lines outside the alphabet), ranges valid (start<=end), sizes fit uint32, single URI; the generate-and-forward half is checked by testing only.",
-  "technique": "Rocq proof (glue/splice decomposition, invariant: lines non-empty and LF-free) + extracted model/spec vs implementation: bounded-exhaustive, random histories, stub-target server runs, shrinking"},
-]
+CHECKS = [json.load(open(f)) for f in sorted(glob.glob(os.path.join(os.path.dirname(__file__), "manifest.d", "C*.json")))]
 _claimed = {c["id"] for c in CHECKS}
 NOT_APPLICABLE = [{"property_id": i, "reason": "not yet claimed: the model, theorems and correspondence for this property are being moved in from the design-phase prototypes (DESIGN.md section 9); nothing about the technique rules it out"} for i in ALL if i not in _claimed]
